@@ -10,6 +10,32 @@ pub struct LocalId { pub g: Ghost<int> }
 '''
 
 MODEL = r'''
+// --- check_block: the three scope stacks, hoisting, and which statements were checked
+#[derive(Clone, Copy)] pub struct StmtH { pub id: Ghost<int> }
+pub struct BlockS { pub id: Ghost<int>, pub stmts: Vec<StmtH> }
+pub struct B {
+    pub scope_depth: Ghost<nat>, pub var_depth: Ghost<nat>, pub fn_depth: Ghost<nat>,
+    pub predeclared: Ghost<bool>, pub checked: Ghost<Seq<int>>,
+}
+pub open spec fn same_but(a: &B, b: &B) -> bool { a.predeclared@ == b.predeclared@ && a.checked@ == b.checked@ }
+impl B {
+    #[verifier::external_body] pub fn open_scope_facts(&mut self, b: &BlockS) ensures *final(self) == *old(self) { unimplemented!() }
+    #[verifier::external_body] pub fn scope_push(&mut self) ensures final(self).scope_depth@ == old(self).scope_depth@ + 1, final(self).var_depth@ == old(self).var_depth@, final(self).fn_depth@ == old(self).fn_depth@, same_but(final(self), old(self)) { unimplemented!() }
+    #[verifier::external_body] pub fn scope_pop(&mut self) requires old(self).scope_depth@ > 0 ensures final(self).scope_depth@ == old(self).scope_depth@ - 1, final(self).var_depth@ == old(self).var_depth@, final(self).fn_depth@ == old(self).fn_depth@, same_but(final(self), old(self)) { unimplemented!() }
+    #[verifier::external_body] pub fn vars_push(&mut self) ensures final(self).var_depth@ == old(self).var_depth@ + 1, final(self).scope_depth@ == old(self).scope_depth@, final(self).fn_depth@ == old(self).fn_depth@, same_but(final(self), old(self)) { unimplemented!() }
+    #[verifier::external_body] pub fn vars_pop(&mut self) requires old(self).var_depth@ > 0 ensures final(self).var_depth@ == old(self).var_depth@ - 1, final(self).scope_depth@ == old(self).scope_depth@, final(self).fn_depth@ == old(self).fn_depth@, same_but(final(self), old(self)) { unimplemented!() }
+    #[verifier::external_body] pub fn fns_push(&mut self) ensures final(self).fn_depth@ == old(self).fn_depth@ + 1, final(self).scope_depth@ == old(self).scope_depth@, final(self).var_depth@ == old(self).var_depth@, same_but(final(self), old(self)) { unimplemented!() }
+    #[verifier::external_body] pub fn fns_pop(&mut self) requires old(self).fn_depth@ > 0 ensures final(self).fn_depth@ == old(self).fn_depth@ - 1, final(self).scope_depth@ == old(self).scope_depth@, final(self).var_depth@ == old(self).var_depth@, same_but(final(self), old(self)) { unimplemented!() }
+    // hoisting: the block's functions are declared in the block's own (just pushed) function scope, before any statement is checked
+    #[verifier::external_body] pub fn predeclare_block_functions(&mut self, b: &BlockS)
+        requires old(self).checked@.len() == 0
+        ensures final(self).predeclared@, final(self).scope_depth@ == old(self).scope_depth@, final(self).var_depth@ == old(self).var_depth@, final(self).fn_depth@ == old(self).fn_depth@, final(self).checked@ == old(self).checked@ { unimplemented!() }
+    // check_stmt leaves the three stacks as it found them
+    #[verifier::external_body] pub fn check_stmt(&mut self, s: &StmtH)
+        requires old(self).predeclared@
+        ensures final(self).checked@ == old(self).checked@.push(s.id@), final(self).predeclared@, final(self).scope_depth@ == old(self).scope_depth@, final(self).var_depth@ == old(self).var_depth@, final(self).fn_depth@ == old(self).fn_depth@ { unimplemented!() }
+}
+
 // Ghost record of what the resolver was asked to do while checking ONE statement
 pub struct G {
     pub in_loop: u32,
@@ -81,5 +107,27 @@ UNIT = VUnit(
               rewrites=[CALLS, Rw("R13", r"self\.facts\.record_expr_local\(expr, local_id\);|self\.record_stmt_read\(local_id\);|self\.record_capture_read\(local_id\);", "", min_matches=3),
                         Rw("R6", r"self\.emit_error\(\s*\*span,\s*SemanticError::(\w+),.*?\}\],\s*\);?", r"{ e_\1 = true; }", min_matches=1)],
               real_name="Resolver::check_expr (Expr::Var arm)"),
+        # a block: its three scopes (facts scope, variables, functions) are opened, the block's functions are hoisted into the NEW function
+        # scope before any statement is checked (forward references), EVERY statement is checked, in order, and all three stacks are back
+        # to their depth afterwards
+        Fn("check_block", impl="impl Resolver",
+           sig="fn check_block(b: &mut B, block: &BlockS)", expect_sig=r"fn check_block\(&mut self, block: BlockRef<'ast>\)",
+           requires=["old(b).checked@.len() == 0", "!old(b).predeclared@"],
+           ensures=["final(b).scope_depth@ == old(b).scope_depth@ && final(b).var_depth@ == old(b).var_depth@ && final(b).fn_depth@ == old(b).fn_depth@",
+                    "final(b).checked@ =~= block.stmts@.map_values(|s: StmtH| s.id@)"],
+           loops={1: {"invariant": ["b.predeclared@", "b.scope_depth@ == old(b).scope_depth@ + 1", "b.var_depth@ == old(b).var_depth@ + 1", "b.fn_depth@ == old(b).fn_depth@ + 1",
+                                    "b.checked@ =~= block.stmts@.subrange(0, it.index@).map_values(|s: StmtH| s.id@)",
+                                    "it.index@ <= block.stmts@.len()", "vstd::std_specs::iter::IteratorSpec::remaining(&it.iter).len() + it.index@ == block.stmts@.len()",
+                                    "forall|i: int| 0 <= i < block.stmts@.len() - it.index@ ==> *(#[trigger] vstd::std_specs::iter::IteratorSpec::remaining(&it.iter)[i]) == block.stmts@[it.index@ + i]"]}},
+           rewrites=[Rw("R13", r"let scope_id =\s*self\.facts\.push_scope\([^;]*\);\s*self\.facts\.record_block_scope\(block, scope_id\);\s*if self\.scope_stack\.is_empty\(\) && self\.current_owner == self\.facts\.root_function \{\s*self\.facts\.set_root_scope\(scope_id\);\s*\}", "b.open_scope_facts(block);", min_matches=1),
+                     Rw("R8", r"self\.scope_stack\.push\(scope_id\);", "b.scope_push();", min_matches=1),
+                     Rw("R8", r"self\.variable_scopes\.push\(Vec::new_in\(self\.arena\)\);", "b.vars_push();", min_matches=1),
+                     Rw("R8", r"self\.function_scopes\.push\(Vec::new_in\(self\.arena\)\);", "b.fns_push();", min_matches=1),
+                     Rw("R8", r"self\.variable_scopes\.pop\(\);", "b.vars_pop();", min_matches=1),
+                     Rw("R8", r"self\.function_scopes\.pop\(\);", "b.fns_pop();", min_matches=1),
+                     Rw("R8", r"self\.scope_stack\.pop\(\);", "b.scope_pop();", min_matches=1),
+                     Rw("R9", r"self\.(predeclare_block_functions|check_stmt)\(", r"b.\1(", min_matches=2),
+                     Rw("R10", r"for &stmt in block\.stmts", "for stmt in it: block.stmts.iter()", min_matches=1)],
+           vacuity="-", real_name="Resolver::check_block"),
     ],
 )
